@@ -567,6 +567,78 @@ def python_metatable_hidden(rep: C.Report) -> None:
         ob.detail += f"{type(e).__name__}: {e}"
 
 
+LIB_WALK = r"""
+local p = {}
+function p.list(frame)
+  local out = {}
+  for _, lib in ipairs({"os", "io", "debug", "package"}) do
+    local t = _G[lib]
+    if type(t) == "table" then
+      for k, v in pairs(t) do out[#out + 1] = lib .. "." .. tostring(k) .. "=" .. type(v) end
+    elseif t ~= nil then
+      out[#out + 1] = lib .. "=" .. type(t)
+    end
+  end
+  table.sort(out)
+  return table.concat(out, ";")
+end
+function p.getenv(frame)
+  local ok, r = pcall(function() return os.getenv("VERIF_C06_SECRET") end)
+  return ok and tostring(r) or "ERR"
+end
+return p
+"""
+# what Scribunto documents as available (https://www.mediawiki.org/wiki/Extension:Scribunto/Lua_reference_manual): everything
+# else of these four host libraries is a host capability in the sense of the property
+SAFE_LIB = {"os": {"clock", "date", "difftime", "time"}, "io": set(), "debug": {"traceback"}, "package": {"loaded", "loaders", "preload", "seeall"}}
+
+
+def library_members(rep: C.Report) -> None:
+    """Ob10: the members of the os / io / debug / package tables a module actually sees (listed by a module running in the real
+    sandbox) are among those the Scribunto reference documents; z3 finite query 'some visible member is not in the safe set';
+    a hit is shown behaviourally where that is harmless (os.getenv returns a variable set for the test), otherwise the
+    visible host function is reported as it is."""
+    ob = rep.add(C.Ob("Ob10 the os / io / debug / package tables a module sees hold only the members the Scribunto reference documents", "z3 over facts read from the live sandbox (finite) + behavioural replay", ["lua/_sandbox_phase1.lua:_lua_reset_env"], "every member of the four library tables as seen by a module"))
+    try:
+        from vf.wtpfix import new_ctx, close
+
+        os.environ["VERIF_C06_SECRET"] = "s3cr3t"
+        w = new_ctx(modules={"vflib": LIB_WALK})
+        w.start_page("T")
+        listing = w.expand("{{#invoke:vflib|list}}")
+        members = [x.split("=")[0] for x in listing.split(";") if "=" in x]
+        ob.samples.append({"visible_members": members})
+        if not members:
+            close(w)
+            ob.verdict, ob.detail = C.NOT_ENCODABLE, f"library listing empty: {listing[:100]!r}"
+            return
+        s_ = z3.Solver()
+        i = z3.Int("i")
+        unsafe = z3.Function("unsafe", z3.IntSort(), z3.BoolSort())
+        for k, m in enumerate(members):
+            lib, _, name = m.partition(".")
+            s_.add(unsafe(k) == (name not in SAFE_LIB.get(lib, set())))
+        s_.add(i >= 0, i < len(members), unsafe(i))
+        r = str(s_.check())
+        ob.queries = ob.paths = ob.conditions = 1
+        if r == "unsat":
+            close(w)
+            ob.verdict = C.DISCHARGED
+            ob.confirmed_conditions = 1
+            return
+        extra = [m for m in members if m.partition(".")[2] not in SAFE_LIB.get(m.partition(".")[0], set())]
+        got = w.expand("{{#invoke:vflib|getenv}}") if "os.getenv" in extra else ""
+        close(w)
+        what = f"a module sees {extra} in addition to the documented members"
+        if got == "s3cr3t":
+            what += "; os.getenv('VERIF_C06_SECRET') returns the host process's environment variable"
+        v_ = rep.violation("expand('{{#invoke:vflib|list}}'): a module lists the members of its os / io / debug / package tables" + (" and reads an environment variable" if got == "s3cr3t" else ""), what, {"extra": extra})
+        ob.verdict = C.VIOLATED if v_.known is None else C.KNOWN
+        ob.confirmed_conditions = 1
+    except Exception as e:  # noqa: BLE001
+        ob.detail += f"{type(e).__name__}: {e}"
+
+
 def invoke_probe(fn: str, arg: str) -> str:
     from vf.wtpfix import new_ctx, close
 
@@ -626,6 +698,7 @@ def run(rep: C.Report) -> None:
     env_whitelist(rep)
     host_globals_not_passed(rep)
     python_metatable_hidden(rep)
+    library_members(rep)
 
 
 def replay(r: dict) -> int:
